@@ -556,6 +556,7 @@ ShapesThorough == ShapesSMAll \cup ShapesJoinAll \cup ShapesVis3
 \* small sets for the control configurations and the liveness runs
 ShapesCtl == {One(<<"F1">>, "pr"), One(<<"F1">>, "am"), One(<<"C1", "P1">>, "sx"), One(<<>>, "sb"),
               One(<<"F1">>, "sb")}
+ShapesCtl2 == {One(<<"F1">>, "am")}
 ShapesLiveQ == ShapesCtl \cup {One(<<"C1">>, "sb"), One(<<"C2", "F1">>, "pr"), One(<<"C1">>, "mg"),
                             Two(<<"F1">>, <<>>, "sb", <<"C2">>, "pr")}
 ShapesLive == ShapesSM \cup {One(<<"F1">>, "pr"), One(<<"C2", "F1">>, "pr"),
